@@ -266,7 +266,7 @@ func c09Scenarios(tier string) []*mcrt.Scenario {
 	}
 	// inputs around the 4096-byte buffer of bufio.Reader (default schedule; the
 	// source hands over everything that fits per Read)
-	for _, n := range []int{4095, 4096, 4097, 8193} {
+	for _, n := range []int{4095, 4096, 4097, 8193, 70001} { // 70001: more than 2^16 bytes, 2500 messages
 		var stream []byte
 		fr := ref.TypedFrame(1077, 22, nil)
 		for len(stream)+len(fr) <= n {
